@@ -88,7 +88,7 @@ impl WorldB {
             .and_then(|r| r.challenge_for)
     }
 
-    fn tick_server(&mut self, dt: u64, transport_order: bool, obs: &mut Obs) {
+    pub(super) fn tick_server(&mut self, dt: u64, transport_order: bool, obs: &mut Obs) {
         obs.sim_ms += dt;
         self.sv_ms += dt;
         self.server.update(Duration::from_millis(dt));
@@ -458,7 +458,7 @@ impl WorldB {
                     }
                 }
             }
-            K_JUNK | K_MUTATE | K_REPLAY | K_FORGEREQ | K_FORGERESP | K_FORGESESS | K_TAMPER | K_TOKENSURGERY | K_CROSSRESP | K_STALEHS | K_FLOODSTEAL => self.adversary_op(op, obs),
+            K_JUNK | K_MUTATE | K_REPLAY | K_FORGEREQ | K_FORGERESP | K_FORGESESS | K_TAMPER | K_TOKENSURGERY | K_CROSSRESP | K_STALEHS | K_FLOODSTEAL | K_FORGEEXPIRY => self.adversary_op(op, obs),
             _ => {}
         }
         for slot in 0..ns {
